@@ -32,6 +32,9 @@
 #include <BayesFilters/SIS.h>
 #include <BayesFilters/ExogenousModel.h>
 #include <BayesFilters/utils.h>
+#include <BayesFilters/GaussianFilter.h>
+#include <BayesFilters/Logger.h>
+#include <sys/stat.h>
 #include <cmath>
 #include <limits>
 #include <cstdlib>
@@ -149,6 +152,23 @@ static std::string lm(Toks& t) {
     return o.str();
 }
 
+// the two-argument constructor LinearModel(component, covariance), called explicitly (it delegates to the seeded one)
+struct XLinearModel2 : public XLinearModel {
+    XLinearModel2(const LinearMatrixComponent& c, const MatrixXd& R) : XLinearModel(c, Ref<const MatrixXd>(R)) { }
+};
+static std::string lm2(Toks& t) {
+    long n = t.nat(), rr = t.nat(), rc = t.nat(), num = t.nat();
+    std::vector<std::size_t> c = comps(t); t.done();
+    MatrixXd R = MatrixXd::Zero(rr, rc);
+    for (long i = 0; i < std::min(rr, rc); ++i) R(i, i) = 0.5 + 0.1 * i;
+    XLinearModel2 m(std::make_pair(std::size_t(n), c), R);
+    MatrixXd H = m.getMeasurementMatrix();
+    MatrixXd s = m.sample(num).second;
+    MatrixXd p = any::any_cast<MatrixXd>(m.predictedMeasure(fillm(n, num)).second);
+    Out o; o.s("ok").s(shp(H)).s(shp(m.sqrtR())).s(shp(s)).s(shp(p));
+    return o.str();
+}
+
 // ---------------------------------------------------------------- SimulatedStateModel / SimulatedLinearSensor
 struct XSim : public SimulatedStateModel {
     using SimulatedStateModel::SimulatedStateModel;
@@ -200,7 +220,7 @@ static std::string hist(Toks& t) {
         std::string op = t.tok();
         char k = op[0]; long a = op.size() > 1 ? std::strtol(op.c_str() + 1, nullptr, 10) : 0;
         if (k == 'a') { VectorXd e = fillm(a, 1); h->addElement(e); o.s("a"); }
-        else if (k == 's') { bool r = h->setHistorySize(a); o.s(std::string("s") + (r ? "1" : "0") + ":" + std::to_string(h->getHistorySize())); }
+        else if (k == 's') { bool r = h->setHistorySize(static_cast<unsigned int>(std::strtoull(op.c_str() + 1, nullptr, 10))); o.s(std::string("s") + (r ? "1" : "0") + ":" + std::to_string(h->getHistorySize())); }
         else if (k == 'd') { h->decreaseHistorySize(); o.s("s1:" + std::to_string(h->getHistorySize())); }
         else if (k == 'i') { h->increaseHistorySize(); o.s("s1:" + std::to_string(h->getHistorySize())); }
         else if (k == 'c') { h->clear(); o.s("c"); }
@@ -214,6 +234,7 @@ static std::string hist(Toks& t) {
             if (k == 'M') { *h = std::move(*other); } else { *other = std::move(*h); h = std::move(other); }
             o.s("m");
         }
+        else if (k == 'S') { HistoryBuffer& self = *h; *h = std::move(self); o.s("m"); }   // h = std::move(h): `if (this == &history_buffer) return *this;`
         else if (k == 'm') { std::unique_ptr<HistoryBuffer> h2(new HistoryBuffer(std::move(*h))); if (a == 0) h = std::move(h2); o.s("m"); }  // m0: continue with the moved-to buffer, m1: with the moved-from one
         else throw vh::BadArgs("histop");
     }
@@ -467,7 +488,7 @@ static std::string kfc(Toks& t) {
 // ---------------------------------------------------------------- GaussianMixture / ParticleSet
 static std::string gmacc(Toks& t) {
     long K = t.nat(), dl = t.nat(), dc = t.nat(); bool quat = t.flag(); long dn = t.nat();
-    std::string which = t.tok(); long i = t.nat(), j = t.nat(), k = t.nat(); t.done();
+    std::string which = t.tok(); std::size_t i = t.unat(), j = t.unat(), k = t.unat(); t.done();   // the whole size_t range
     GaussianMixture g = mkGM(K, dl, dc, quat, dn);
     const GaussianMixture& cg = g;
     Out o; o.s("ok");
@@ -481,7 +502,7 @@ static std::string gmacc(Toks& t) {
 }
 static std::string psacc(Toks& t) {
     long K = t.nat(), dl = t.nat(), dc = t.nat(); bool quat = t.flag();
-    std::string which = t.tok(); long i = t.nat(), j = t.nat(); t.done();
+    std::string which = t.tok(); std::size_t i = t.unat(), j = t.unat(); t.done();
     ParticleSet p(K, dl, dc, quat); fillPS(p);
     const ParticleSet& cp = p;
     Out o; o.s("ok");
@@ -821,6 +842,7 @@ struct XSIS : public SIS {
     long steps = 0, done = 0;
     bool run_condition() override { return done < steps; }
     void filtering_step() override { SIS::filtering_step(); ++done; }
+    bool predSkipping() { return prediction().is_skipping(); }
     const ParticleSet& predP() const { return pred_particle_; }
     const ParticleSet& corP() const { return cor_particle_; }
 };
@@ -909,18 +931,34 @@ static std::unique_ptr<XMeas> mkMeas(long sr, long m) {
     std::unique_ptr<XMeas> x(new XMeas()); x->in_ = vdesc(sr, 0, m, false); x->out_ = vdesc(m, 0, 0, false);
     x->prows = m; x->irows = m; x->ysize = m; x->R = spd(m, 0.3); return x;
 }
+// what getInfo() says: (index of the method in use, window size)
+static std::pair<long, long> eeInfo(const EstimatesExtraction& e) {
+    std::vector<std::string> info = e.getInfo();
+    if (info.size() != 2) return std::make_pair(-1L, -1L);
+    long window = -1; std::sscanf(info[0].c_str(), "<| Current window size: %ld", &window);
+    static const char* names[12] = {"1) mean <--", "2) smean <--", "3) wmean <--", "4) emean <--", "5) mode <--", "6) smode <--", "7) wmode <--", "8) emode <--", "9) map <--", "10) smap <--", "11) wmap <--", "12) emap <--"};
+    long m = -1; int hits = 0;
+    for (long i = 0; i < 12; ++i) if (info[1].find(names[i]) != std::string::npos) { m = i; ++hits; }
+    return std::make_pair(hits == 1 ? m : -1L, window);
+}
+// x = std::move(x) through a second reference (no -Wself-move): the guards `if (this == &other) return *this;`
+template <class T> static void selfMove(T& x) { T& y = x; x = std::move(y); }
 static std::string handover(Toks& t) {
     long cls = t.nat(), kind = t.nat(), A1 = t.nat(), A2 = t.nat(), B1 = t.nat(), B2 = t.nat(), N = t.nat(); t.done();
     Out o; o.s("ok");
+    // kind 4: B (used once) is move-assigned to ITSELF, then used with its own sizes: must behave as the configured original
+    const bool self = (kind == 4);
     if (cls == 0) {            // KFPrediction
         std::unique_ptr<KFPrediction> a(new KFPrediction(mkX(A1))), b(new KFPrediction(mkX(B1)));
         useGP(*a, A1, 1, nullptr); useGP(*b, B1, 1, nullptr);
-        if (kind == 0) { *a = std::move(*b); b.reset(); useGP(*a, B1, N, &o); } else { KFPrediction c(std::move(*b)); b.reset(); useGP(c, B1, N, &o); }
+        if (self) { selfMove(*b); useGP(*b, B1, N, &o); }
+        else if (kind == 0) { *a = std::move(*b); b.reset(); useGP(*a, B1, N, &o); } else { KFPrediction c(std::move(*b)); b.reset(); useGP(c, B1, N, &o); }
     } else if (cls == 1) {     // UKFPrediction (additive)
         typedef std::unique_ptr<AdditiveStateModel> AP;
         std::unique_ptr<UKFPrediction> a(new UKFPrediction(AP(mkX(A1)), 1.0, 2.0, 0.0)), b(new UKFPrediction(AP(mkX(B1)), 1.0, 2.0, 0.0));
         useGP(*a, A1, 1, nullptr); useGP(*b, B1, 1, nullptr);
-        if (kind == 0) { *a = std::move(*b); b.reset(); useGP(*a, B1, N, &o); } else { UKFPrediction c(std::move(*b)); b.reset(); useGP(c, B1, N, &o); }
+        if (self) { selfMove(*b); useGP(*b, B1, N, &o); }
+        else if (kind == 0) { *a = std::move(*b); b.reset(); useGP(*a, B1, N, &o); } else { UKFPrediction c(std::move(*b)); b.reset(); useGP(c, B1, N, &o); }
     } else if (cls == 2 || cls == 3) {   // GPFPrediction over KFPrediction / DrawParticles over WhiteNoiseAcceleration
         std::unique_ptr<PFPrediction> a, b;
         const long na = cls == 2 ? A1 : 2 * A1, nb = cls == 2 ? B1 : 2 * B1;
@@ -929,9 +967,11 @@ static std::string handover(Toks& t) {
         { ParticleSet x(1, na), y(1, na); fillPS(x); a->predict(x, y); } { ParticleSet x(1, nb), y(1, nb); fillPS(x); b->predict(x, y); }
         ParticleSet prev(N, nb), pred(N, nb); fillPS(prev);
         if (cls == 2) { GPFPrediction* pa = static_cast<GPFPrediction*>(a.get()); GPFPrediction* pb = static_cast<GPFPrediction*>(b.get());
-            if (kind == 0) { *pa = std::move(*pb); b.reset(); pa->predict(prev, pred); } else { GPFPrediction c(std::move(*pb)); b.reset(); c.predict(prev, pred); } }
+            if (self) { selfMove(*pb); pb->predict(prev, pred); }
+            else if (kind == 0) { *pa = std::move(*pb); b.reset(); pa->predict(prev, pred); } else { GPFPrediction c(std::move(*pb)); b.reset(); c.predict(prev, pred); } }
         else { DrawParticles* pa = static_cast<DrawParticles*>(a.get()); DrawParticles* pb = static_cast<DrawParticles*>(b.get());
-            if (kind == 0) { *pa = std::move(*pb); b.reset(); pa->predict(prev, pred); } else { DrawParticles c(std::move(*pb)); b.reset(); c.predict(prev, pred); } }
+            if (self) { selfMove(*pb); pb->predict(prev, pred); }
+            else if (kind == 0) { *pa = std::move(*pb); b.reset(); pa->predict(prev, pred); } else { DrawParticles c(std::move(*pb)); b.reset(); c.predict(prev, pred); } }
         outPS(o, pred);
     } else if (cls == 4) {     // BootstrapCorrection
         typedef std::unique_ptr<MeasurementModel> MP; typedef std::unique_ptr<LikelihoodModel> LP;
@@ -939,7 +979,8 @@ static std::string handover(Toks& t) {
         { ParticleSet x(2, A1), y(2, A1); fillPS(x); a->correct(x, y); } { ParticleSet x(3, B1), y(3, B1); fillPS(x); b->correct(x, y); }
         ParticleSet pred(N, B1), cor(N, B1); fillPS(pred);
         std::pair<bool, VectorXd> l;
-        if (kind == 0) { *a = std::move(*b); b.reset(); a->correct(pred, cor); l = a->getLikelihood(); } else { BootstrapCorrection c(std::move(*b)); b.reset(); c.correct(pred, cor); l = c.getLikelihood(); }
+        if (self) { selfMove(*b); b->correct(pred, cor); l = b->getLikelihood(); }
+        else if (kind == 0) { *a = std::move(*b); b.reset(); a->correct(pred, cor); l = a->getLikelihood(); } else { BootstrapCorrection c(std::move(*b)); b.reset(); c.correct(pred, cor); l = c.getLikelihood(); }
         outPS(o, cor); o.n(l.first).n(l.second.size()).n(1);
     } else if (cls == 5) {     // GPFCorrection
         struct Mk { static GPFCorrection* go(long d, long hm) {
@@ -949,20 +990,23 @@ static std::string handover(Toks& t) {
         { ParticleSet x(2, 2 * A1), y(2, 2 * A1); fillPS(x); a->correct(x, y); } { ParticleSet x(3, 2 * B1), y(3, 2 * B1); fillPS(x); b->correct(x, y); }
         ParticleSet pred(N, 2 * B1), cor(N, 2 * B1); fillPS(pred);
         std::pair<bool, VectorXd> l;
-        if (kind == 0) { *a = std::move(*b); b.reset(); a->correct(pred, cor); l = a->getLikelihood(); } else { GPFCorrection c(std::move(*b)); b.reset(); c.correct(pred, cor); l = c.getLikelihood(); }
+        if (self) { selfMove(*b); b->correct(pred, cor); l = b->getLikelihood(); }
+        else if (kind == 0) { *a = std::move(*b); b.reset(); a->correct(pred, cor); l = a->getLikelihood(); } else { GPFCorrection c(std::move(*b)); b.reset(); c.correct(pred, cor); l = c.getLikelihood(); }
         outPS(o, cor); o.n(l.first).n(l.second.size());
     } else if (cls == 6) {     // ResamplingWithPrior: grid A1 x 1 / B1 x 1, prior ratio A2/10 / B2/10
         typedef std::unique_ptr<ParticleSetInitialization> IP;
         std::unique_ptr<ResamplingWithPrior> a(new ResamplingWithPrior(IP(new InitSurveillanceAreaGrid(10.0, 20.0, A1, 1)), A2 / 10.0, 3)), b(new ResamplingWithPrior(IP(new InitSurveillanceAreaGrid(10.0, 20.0, B1, 1)), B2 / 10.0, 4));
         ParticleSet cor(N, 4), res(1, 1); fillPS(cor); VectorXi par = VectorXi::Constant(N, -7);
-        if (kind == 0) { *a = std::move(*b); b.reset(); a->resample(cor, res, par); } else { ResamplingWithPrior c(std::move(*b)); b.reset(); c.resample(cor, res, par); }
+        if (self) { selfMove(*b); b->resample(cor, res, par); }
+        else if (kind == 0) { *a = std::move(*b); b.reset(); a->resample(cor, res, par); } else { ResamplingWithPrior c(std::move(*b)); b.reset(); c.resample(cor, res, par); }
         long unwritten = 0, minus1 = 0, bad = 0;
         for (long i = 0; i < par.size(); ++i) { if (par(i) == -7) ++unwritten; else if (par(i) == -1) ++minus1; else if (par(i) < 0 || par(i) >= N) ++bad; }
         o.n(res.components).s(shpT(res.state())).s(shpT(res.mean())).s(shpT(res.covariance())).n(res.weight().size()).n(unwritten).n(minus1).n(bad);
     } else if (cls == 7) {     // LTIStateModel
         std::unique_ptr<XState> a = mkX(A1), b = mkX(B1);
         MatrixXd cur = fillm(B1, N), prop = MatrixXd::Constant(B1, N, 77.0);
-        if (kind == 0) { *a = std::move(*b); b.reset(); a->propagate(cur, prop); } else { XState c(std::move(*b)); b.reset(); c.propagate(cur, prop); }
+        if (self) { selfMove(*b); b->propagate(cur, prop); }
+        else if (kind == 0) { *a = std::move(*b); b.reset(); a->propagate(cur, prop); } else { XState c(std::move(*b)); b.reset(); c.propagate(cur, prop); }
         o.s(shp(prop)).n(1);
     } else if (cls == 8) {     // EstimatesExtraction, method N, 3 extractions before and 4 after the hand-over, 4 particles
         std::unique_ptr<XExtract> a(new XExtract(A1, A2)), b(new XExtract(B1, B2));
@@ -971,7 +1015,9 @@ static std::string handover(Toks& t) {
         MatrixXd Pa = fillm(A1 + A2, 4), Pb = fillm(B1 + B2, 4);
         for (int i = 0; i < 3; ++i) { a->extract(Pa, w, w, l, tp); b->extract(Pb, w, w, l, tp); }
         XExtract* r = a.get(); std::unique_ptr<XExtract> c;
-        if (kind == 0) { *a = std::move(*b); b.reset(); } else { c.reset(new XExtract(std::move(*b))); b.reset(); r = c.get(); }
+        if (self) { selfMove(*b); r = b.get(); }
+        else if (kind == 0) { *a = std::move(*b); b.reset(); } else { c.reset(new XExtract(std::move(*b))); b.reset(); r = c.get(); }
+        { std::pair<long, long> i = eeInfo(*r); o.n(i.first).n(i.second); }     // the method in use and the window travel with the object
         for (int i = 0; i < 4; ++i) { std::pair<bool, VectorXd> x = r->extract(Pb, w, w, l, tp); o.s(std::to_string(x.first ? 1 : 0) + ":" + std::to_string(x.second.size())); }
     } else if (cls == 9 || cls == 10 || cls == 11) {   // UKF (additive) / SUKF / KF correction, used once, then move-constructed (the only hand-over they offer)
         std::unique_ptr<GaussianCorrection> b;
@@ -992,22 +1038,238 @@ static std::string handover(Toks& t) {
         if (cls == 12) {
             ParticleSet a(N + 1, A1, A2), b(N, B1, B2), extra(1, B1, B2); fillPS(a); fillPS(b); fillPS(extra);
             ParticleSet* r = &a; std::unique_ptr<ParticleSet> c;
-            if (kind == 0) a = std::move(b); else if (kind == 2) a = b; else if (kind == 1) { c.reset(new ParticleSet(std::move(b))); r = c.get(); } else { c.reset(new ParticleSet(b)); r = c.get(); }
+            if (self) { selfMove(b); r = &b; }
+            else if (kind == 0) a = std::move(b); else if (kind == 2) a = b; else if (kind == 1) { c.reset(new ParticleSet(std::move(b))); r = c.get(); } else { c.reset(new ParticleSet(b)); r = c.get(); }
             *r += extra; outPS(o, *r);
         } else {
             GaussianMixture a(N + 1, A1, A2), b(N, B1, B2); fillGM(a); fillGM(b);
             GaussianMixture* r = &a; std::unique_ptr<GaussianMixture> c;
-            if (kind == 0) a = std::move(b); else if (kind == 2) a = b; else if (kind == 1) { c.reset(new GaussianMixture(std::move(b))); r = c.get(); } else { c.reset(new GaussianMixture(b)); r = c.get(); }
+            if (self) { selfMove(b); r = &b; }
+            else if (kind == 0) a = std::move(b); else if (kind == 2) a = b; else if (kind == 1) { c.reset(new GaussianMixture(std::move(b))); r = c.get(); } else { c.reset(new GaussianMixture(b)); r = c.get(); }
             bool ok = r->augmentWithNoise(spd(1, 0.1)); o.n(ok); outGMshape(o, *r);
         }
     } else if (cls == 14) {    // Resampling: copy / move construction and assignment
         Resampling a(1), b(9);
         ParticleSet cor(N, B1), res(N, B1); fillPS(cor); VectorXi par = VectorXi::Constant(N, -7);
-        if (kind == 0) { a = std::move(b); a.resample(cor, res, par); } else if (kind == 2) { a = b; a.resample(cor, res, par); }
+        if (self) { selfMove(b); b.resample(cor, res, par); }
+        else if (kind == 5) {   // Resampling::operator=(const Resampling&&): assignment from a const rvalue, and onto itself
+            const Resampling& cb = b; a = static_cast<const Resampling&&>(cb);
+            const Resampling& ca = a; a = static_cast<const Resampling&&>(ca);
+            a.resample(cor, res, par); }
+        else if (kind == 0) { a = std::move(b); a.resample(cor, res, par); } else if (kind == 2) { a = b; a.resample(cor, res, par); }
         else if (kind == 1) { Resampling c(std::move(b)); c.resample(cor, res, par); } else { Resampling c(b); c.resample(cor, res, par); }
         long unwritten = 0, bad = 0; for (long i = 0; i < par.size(); ++i) { if (par(i) == -7) ++unwritten; else if (par(i) < 0 || par(i) >= N) ++bad; }
         o.n(res.components).s(shpT(res.state())).n(unwritten).n(bad);
     } else throw vh::BadArgs("cls");
+    return o.str();
+}
+
+// ---------------------------------------------------------------- round 4: EstimatesExtraction hand-over language
+// b_eehand ls cs N ops… : x<m>_<full> setMethod + extract on particles of the CURRENT state size; w<w> window; c move construction
+//   (continue with the new object); S self move; M<ls2>_<cs2>_<w>_<k>_<m> *this = std::move(other) with other = EstimatesExtraction(ls2, cs2),
+//   window w (0: default), used k times with method m; T… other = std::move(*this), continue with other
+static void eeUse(XExtract& e, long ls, long cs, long N, long m, bool full, Out* o) {
+    MatrixXd P = fillm(ls + cs, N);
+    VectorXd w = VectorXd::Constant(N, N > 0 ? -std::log(double(N)) : 0.0); if (N > 0) w(N - 1) += 0.125;
+    VectorXd l = VectorXd::Constant(N, 0.5); MatrixXd tp = MatrixXd::Constant(N, N, 0.25);
+    e.setMethod(emeth(m));
+    std::pair<bool, VectorXd> r = full ? e.extract(P, w, w, l, tp) : e.extract(P, w);
+    if (o) o->s(std::to_string(r.first ? 1 : 0) + ":" + std::to_string(r.second.size()));
+}
+static std::string eehand(Toks& t) {
+    long ls = t.nat(), cs = t.nat(), N = t.nat();
+    std::unique_ptr<XExtract> e(new XExtract(ls, cs));
+    Out o; o.s("ok");
+    long lastm = eeInfo(*e).first;     // the default method
+    auto moved = [&]() { std::pair<long, long> i = eeInfo(*e); o.s("m:" + std::to_string(i.second) + (i.first == lastm ? "" : ":method-in-use-changed")); };
+    while (!t.empty()) {
+        std::string op = t.tok(); char k = op[0];
+        if (k == 'x') { long m = 0, f = 0; if (std::sscanf(op.c_str() + 1, "%ld_%ld", &m, &f) != 2) throw vh::BadArgs("eex"); eeUse(*e, ls, cs, N, m, f != 0, &o); lastm = m; }
+        else if (k == 'w') { long w = std::strtol(op.c_str() + 1, nullptr, 10); bool r = e->setMobileAverageWindowSize(static_cast<int>(w)); o.s(r ? "w1" : "w0"); }
+        else if (k == 'c') { std::unique_ptr<XExtract> c(new XExtract(std::move(*e))); e = std::move(c); moved(); }
+        else if (k == 'S') { selfMove(*e); moved(); }
+        else if (k == 'M' || k == 'T') {
+            long ls2 = 0, cs2 = 0, w = 0, cnt = 0, m = 0;
+            if (std::sscanf(op.c_str() + 1, "%ld_%ld_%ld_%ld_%ld", &ls2, &cs2, &w, &cnt, &m) != 5) throw vh::BadArgs("eemove");
+            std::unique_ptr<XExtract> other(new XExtract(ls2, cs2));
+            if (w > 0) other->setMobileAverageWindowSize(static_cast<int>(w));
+            for (long i = 0; i < cnt; ++i) eeUse(*other, ls2, cs2, N, m, true, nullptr);
+            if (k == 'M') { if (cnt > 0) lastm = m; else lastm = eeInfo(*other).first; *e = std::move(*other); other.reset(); ls = ls2; cs = cs2; }
+            else { *other = std::move(*e); e = std::move(other); }
+            moved();
+        }
+        else throw vh::BadArgs("eeop");
+    }
+    return o.str();
+}
+
+// ---------------------------------------------------------------- round 4: Logger (log_files_ indexed by position)
+// b_logger dir cls n k ops… : cls 0 = a Logger subclass naming n files whose log() hands k (1..4) data to logger(); 1 = SimulatedStateModel,
+//   2 = SimulatedLinearSensor, 3 = SIS.  e<ok>_<id> enable_log(dir/L<id> [ok = 0: a folder that does not exist], "p"), d disable_log, l log(), q query
+struct XLog : public Logger {
+    long n = 0, k = 0;
+    std::vector<std::string> log_file_names(const std::string& folder, const std::string& prefix) override {
+        std::vector<std::string> v; for (long i = 0; i < n; ++i) v.push_back(folder + "/" + prefix + "_f" + std::to_string(i)); return v; }
+    void log() override {
+        if (k == 1) logger(1.5); else if (k == 2) logger(1.5, 2.5); else if (k == 3) logger(1.5, 2.5, 3.5); else if (k == 4) logger(1.5, 2.5, 3.5, 4.5);
+        const XLog& c = *this;
+        if (k == 1) c.logger(1.5); else if (k == 2) c.logger(1.5, 2.5); else if (k == 3) c.logger(1.5, 2.5, 3.5); else if (k == 4) c.logger(1.5, 2.5, 3.5, 4.5);
+    }
+    void call_log() { log(); }
+};
+struct XSls : public SimulatedLinearSensor {
+    using SimulatedLinearSensor::SimulatedLinearSensor;
+    void call_log() { log(); }
+};
+struct XSISlog : public XSIS {
+    using XSIS::XSIS;
+    void call_log() { log(); }
+};
+static std::string loggerOp(Toks& t) {
+    std::string dir = t.tok(); long cls = t.nat(), n = t.nat(), k = t.nat();
+    std::unique_ptr<XLog> x0; std::unique_ptr<XSim> x1; std::unique_ptr<XSls> x2; std::unique_ptr<XSISlog> x3;
+    Logger* lg = nullptr;
+    if (cls == 0) { if (k < 1 || k > 4) throw vh::BadArgs("data count"); x0.reset(new XLog()); x0->n = n; x0->k = k; lg = x0.get(); }
+    else if (cls == 1) { x1.reset(new XSim(std::unique_ptr<StateModel>(new WhiteNoiseAcceleration(wdim(1), 1.0, 1.0)), VectorXd(fillm(2, 1)), 3)); x1->bufferData(); lg = x1.get(); }
+    else if (cls == 2) {
+        std::unique_ptr<SimulatedStateModel> sm(new SimulatedStateModel(std::unique_ptr<StateModel>(new WhiteNoiseAcceleration(wdim(1), 1.0, 1.0)), VectorXd(fillm(2, 1)), 3));
+        x2.reset(new XSls(std::move(sm), std::make_pair(std::size_t(2), std::vector<std::size_t>{0}), spd(1, 0.5))); x2->freeze(); lg = x2.get(); }
+    else if (cls == 3) {
+        std::unique_ptr<XLin> m(new XLin(fillm(1, 2, 1.0), spd(1, 0.3), 1));
+        std::unique_ptr<PFCorrection> cor(new BootstrapCorrection(std::unique_ptr<MeasurementModel>(std::move(m)), std::unique_ptr<LikelihoodModel>(new GaussianLikelihood())));
+        std::unique_ptr<PFPrediction> pre(new DrawParticles(std::unique_ptr<StateModel>(new WhiteNoiseAcceleration(wdim(1), 1.0, 1.0))));
+        x3.reset(new XSISlog(4, 2, 0, std::unique_ptr<ParticleSetInitialization>(new InitSurveillanceAreaGrid(10.0, 20.0, 2, 2)), std::move(pre), std::move(cor), std::unique_ptr<Resampling>(new Resampling(5))));
+        lg = x3.get(); }
+    else throw vh::BadArgs("cls");
+    Out o; o.s("ok");
+    while (!t.empty()) {
+        std::string op = t.tok(); char c = op[0];
+        if (c == 'e') {
+            long ok = 0, id = 0; if (std::sscanf(op.c_str() + 1, "%ld_%ld", &ok, &id) != 2) throw vh::BadArgs("enable");
+            std::string folder = dir + (ok ? "/L" : "/missing/L") + std::to_string(id);
+            if (ok) ::mkdir(folder.c_str(), 0777);
+            bool r = lg->enable_log(folder, "p"); o.s(r ? "e1" : "e0");
+        }
+        else if (c == 'd') { bool r = lg->disable_log(); o.s(r ? "d1" : "d0"); }
+        else if (c == 'l') { if (x0) x0->call_log(); else if (x1) x1->call_log(); else if (x2) x2->call_log(); else x3->call_log(); o.s("l"); }
+        else if (c == 'q') {
+            std::string f = lg->get_folder_path(), pre = lg->get_file_name_prefix();
+            if (f.empty() && pre.empty()) o.s("q_");
+            else { std::size_t p = f.find_last_of('L'); o.s((pre == "p" && p != std::string::npos) ? "q" + f.substr(p + 1) : std::string("q?")); }
+        }
+        else throw vh::BadArgs("logop");
+    }
+    return o.str();
+}
+
+// ---------------------------------------------------------------- round 4: GaussianFilter::skip / ParticleFilter::skip in front of filtering steps
+static const char* skipName(long w) {
+    static const char* names[6] = {"prediction", "state", "exogenous", "correction", "all", "no-such-step"};
+    if (w < 0 || w > 5) throw vh::BadArgs("what"); return names[w];
+}
+struct XGF : public GaussianFilter {
+    XGF(std::unique_ptr<GaussianPrediction> p, std::unique_ptr<GaussianCorrection> c, const GaussianMixture& init) : GaussianFilter(std::move(p), std::move(c)), pred_(init), corr_(init) { }
+    bool initialization_step() override { return true; }
+    void filtering_step() override {
+        prediction().predict(corr_, pred_);
+        correction().freeze_measurements();
+        correction().correct(pred_, corr_);
+        ++done;
+    }
+    bool run_condition() override { return done < steps; }
+    bool predSkipping() { return prediction().is_skipping(); }
+    GaussianMixture pred_, corr_; long steps = 0, done = 0;
+};
+// prints the return value of each skip command and the flags reachable through the public interface afterwards
+template <class F> static void skipCmds(F& f, StateModel& sm, bool hasExo, Toks& t, long n, Out& o) {
+    for (long i = 0; i < n; ++i) {
+        long w = t.nat(); bool b = t.flag();
+        try {
+            bool r = f.skip(skipName(w), b);
+            o.s(std::string(r ? "1" : "0") + ":" + (f.predSkipping() ? "1" : "0") + (sm.is_skipping() ? "1" : "0") + ((hasExo && sm.exogenous_model().is_skipping()) ? "1" : "0"));
+        } catch (const std::runtime_error&) { o.s("x"); }
+    }
+}
+// b_gfilter hasExo fn K hm steps n (what status)*
+static std::string gfilter(Toks& t) {
+    bool hasExo = t.flag(); long fn = t.nat(), K = t.nat(), hm = t.nat(), steps = t.nat(), n = t.nat();
+    std::unique_ptr<XState> sm = mkX(fn);
+    if (hasExo) sm->add_exogenous_model(std::unique_ptr<ExogenousModel>(new XExo()));
+    StateModel* smp = sm.get();
+    std::unique_ptr<GaussianPrediction> p(new KFPrediction(std::unique_ptr<LinearStateModel>(std::move(sm))));
+    std::unique_ptr<GaussianCorrection> c(new KFCorrection(std::unique_ptr<LinearMeasurementModel>(new XLin(fillm(hm, fn, 1.0), spd(hm, 0.3), hm))));
+    XGF f(std::move(p), std::move(c), mkGM(K, fn, 0, false, 0));
+    Out o; o.s("ok");
+    skipCmds(f, *smp, hasExo, t, n, o); t.done();
+    f.steps = steps;
+    f.boot(); f.run(); f.wait();
+    outGMshape(o, f.corr_);
+    return o.str();
+}
+// b_pfilter hasExo N lin circ d nx ny hm steps n (what status)*
+static std::string pfilter(Toks& t) {
+    bool hasExo = t.flag(); long N = t.nat(), lin = t.nat(), circ = t.nat(), d = t.nat(), nx = t.nat(), ny = t.nat(), hm = t.nat(), steps = t.nat(), n = t.nat();
+    long dim = lin + circ;
+    std::unique_ptr<XLin> m(new XLin(fillm(hm, dim, 1.0), spd(hm, 0.3), hm));
+    std::unique_ptr<PFCorrection> cor(new BootstrapCorrection(std::unique_ptr<MeasurementModel>(std::move(m)), std::unique_ptr<LikelihoodModel>(new GaussianLikelihood())));
+    std::unique_ptr<StateModel> sm(new WhiteNoiseAcceleration(wdim(d), 1.0, 1.0));
+    StateModel* smp = sm.get();
+    std::unique_ptr<PFPrediction> pre;
+    if (hasExo) pre.reset(new DrawParticles(std::move(sm), std::unique_ptr<ExogenousModel>(new XExo()))); else pre.reset(new DrawParticles(std::move(sm)));
+    XSIS f(N, lin, circ, std::unique_ptr<ParticleSetInitialization>(new InitSurveillanceAreaGrid(10.0, 20.0, nx, ny)), std::move(pre), std::move(cor), std::unique_ptr<Resampling>(new Resampling(5)));
+    Out o; o.s("ok");
+    skipCmds(f, *smp, hasExo, t, n, o); t.done();
+    f.steps = steps;
+    f.boot(); f.run(); f.wait();
+    o.n(f.done); outPS(o, f.predP()); outPS(o, f.corP());
+    return o.str();
+}
+
+// ---------------------------------------------------------------- round 4: default (throwing) virtuals reached through shipped classes
+struct XBareMeas : public MeasurementModel {     // provides only what is pure virtual
+    bool freeze(const Data&) override { return true; }
+    std::pair<bool, Data> measure(const Data&) const override { MatrixXd y = fillm(2, 1, 0.4); return std::make_pair(true, Data(std::move(y))); }
+    std::pair<bool, Data> predictedMeasure(const Ref<const MatrixXd>& x) const override { MatrixXd p = fillm(2, x.cols(), 0.3); return std::make_pair(true, Data(std::move(p))); }
+    std::pair<bool, Data> innovation(const Data& p, const Data&) const override { MatrixXd pm = any::any_cast<MatrixXd>(p); MatrixXd i = fillm(2, pm.cols(), 0.05); return std::make_pair(true, Data(std::move(i))); }
+};
+struct XBareCorr : public GaussianCorrection {
+    XBareMeas m_;
+    MeasurementModel& getMeasurementModel() override { return m_; }
+    void correctStep(const GaussianMixture& p, GaussianMixture& c) override { c = p; }
+};
+struct XLti : public LTIStateModel {             // an LTIStateModel as shipped: only the description is added
+    XLti(long n) : LTIStateModel(spd(n, 1.0), spd(n, 0.2)), n_(n) { }
+    VectorDescription getStateDescription() override { return VectorDescription(n_); }
+    long n_;
+};
+struct XBareAdd : public AdditiveStateModel {    // an additive model that does not say what its noise covariance is
+    void propagate(const Ref<const MatrixXd>& c, Ref<MatrixXd> p) override { p = c; }
+    bool setProperty(const std::string&) override { return false; }
+    VectorDescription getStateDescription() override { return VectorDescription(2); }
+};
+// b_defaults which fn sr N
+static std::string defaults(Toks& t) {
+    long which = t.nat(), fn = t.nat(), sr = t.nat(), N = t.nat(); t.done();
+    Out o; o.s("ok");
+    if (which == 0) {        // DrawParticles over a plain LTIStateModel: LinearStateModel::propagate, then StateModel::getNoiseSample
+        DrawParticles p(std::unique_ptr<StateModel>(new XLti(fn)));
+        ParticleSet prev(N, sr), pred(N, sr); fillPS(prev);
+        p.predict(prev, pred); o.s("no-throw");
+    } else if (which == 1) { XLti m(2); VectorXd v = m.getTransitionProbability(fillm(2, 3), fillm(2, 3)); o.n(v.size()); }
+    else if (which == 2) { XLti m(2); MatrixXd v = m.getNoiseSample(3); o.s(shp(v)); }
+    else if (which == 3) { WhiteNoiseAcceleration m(wdim(2), 1.0, 1.0); MatrixXd v = m.getJacobian(); o.s(shp(v)); }
+    else if (which == 4) { XBareMeas m; if (m.setProperty("anything")) o.s("setProperty-accepted"); GaussianLikelihood gl; LikelihoodModel& lk = gl; std::pair<bool, VectorXd> r = lk.likelihood(m, fillm(3, 2)); o.n(r.first); }
+    else if (which == 5) {
+        XBareMeas m; int thrown = 0;
+        try { m.getInputDescription(); } catch (const std::runtime_error&) { ++thrown; }
+        try { m.getNoiseCovarianceMatrix(); } catch (const std::runtime_error&) { ++thrown; }
+        if (thrown != 2) { o.s("no-throw"); return o.str(); }
+        GaussianMixture g = mkGM(1, 3, 0, false, 0); sigma_point::UTWeight w(std::size_t(3), 1.0, 2.0, 0.0);
+        sigma_point::unscented_transform(g, w, static_cast<MeasurementModel&>(m)); o.s("no-throw");   // asks getMeasurementDescription()
+    }
+    else if (which == 6) { XBareCorr c; GaussianMixture a = mkGM(1, 2, 0, false, 0), b(1, 2); c.correct(a, b); std::pair<bool, VectorXd> l = c.getLikelihood(); o.n(l.first); }
+    else if (which == 7) { XBareAdd m; VectorDescription d = m.getInputDescription(); o.n(d.total_size()); }   // StateModel::getNoiseCovarianceMatrix
+    else throw vh::BadArgs("which");
     return o.str();
 }
 
@@ -1039,6 +1301,12 @@ int main() {
         else if (op == "b_gpfcseq") out = gpfcseq(t);
         else if (op == "b_eeseq") out = eeseq(t);
         else if (op == "b_handover") out = handover(t);
+        else if (op == "b_lm2") out = lm2(t);
+        else if (op == "b_eehand") out = eehand(t);
+        else if (op == "b_logger") out = loggerOp(t);
+        else if (op == "b_gfilter") out = gfilter(t);
+        else if (op == "b_pfilter") out = pfilter(t);
+        else if (op == "b_defaults") out = defaults(t);
         else if (op == "b_linprop") out = linprop(t);
         else if (op == "b_kfp") out = kfp(t);
         else if (op == "b_ukfp") out = ukfp(t);
